@@ -419,4 +419,28 @@ func init() {
 		p.Thorough = p.Quick
 		props["C14"] = p
 	}
+
+	// ---- C20 ----
+	{
+		p := &Prop{ID: "C20", Outside: []string{
+			"the goroutine schedule of tool start / finish / callback, the semaphore bound and the wait-group / errgroup ordering protocol (process.go run/wait, linter.go eg.Wait before proc.wait): goroutines are executed sequentially here; a schedule-symbolic bounded model of the protocol is not built (see DESIGN.md section 6)",
+			"real tool processes in the symbolic runs (os/exec is replaced by a stub with symbolic outcomes; native replay uses /bin/sh as a stand-in tool); pipe and write failures cannot be replayed natively",
+			"scripts longer than the bound; shellcheck issue fields other than line/column; pyflakes message text beyond 2 bytes per record",
+		}}
+		for _, L := range []int64{0, 3, 5, 6, 7, 8, 10, 12} {
+			p.Quick = append(p.Quick, HRun{Entry: "HarnessC20Sanitize", Args: []int64{L}, Bound: "all 256^L scripts of length L"})
+		}
+		p.Quick = append(p.Quick,
+			HRun{Entry: "HarnessC20Run", Bound: "pipe failure x write failure x result class {ok, ExitError, other} x 64-bit symbolic exit code x stdout length 0..2 x combined-output", Require: []string{"error", "ok"}},
+			HRun{Entry: "HarnessC20Shellcheck", Bound: "tool error x non-JSON output x 0..3 issues with 64-bit symbolic line/column", Require: []string{"callback", "fatal"}},
+			HRun{Entry: "HarnessC20Pyflakes", Args: []int64{2}, Bound: "2 records with symbolic text, line terminator in {LF, CRLF, none}, optional junk lines", Require: []string{"callback", "unterminated"}},
+			HRun{Entry: "HarnessC20Shell", Bound: "shell at step / job default / workflow default in 7 spellings each x Linux / Windows runner (686 combinations)", Require: []string{"linted"}},
+		)
+		p.Thorough = append(append([]HRun{}, p.Quick...),
+			HRun{Entry: "HarnessC20Sanitize", Args: []int64{16}, Bound: "all scripts of length 16"},
+			HRun{Entry: "HarnessC20Sanitize", Args: []int64{20}, Bound: "all scripts of length 20"},
+			HRun{Entry: "HarnessC20Pyflakes", Args: []int64{3}, Bound: "3 records", Require: []string{"callback", "unterminated"}},
+		)
+		props["C20"] = p
+	}
 }
